@@ -9,21 +9,32 @@
 //                `d.mantissa() == n` (as i128; for u128 compared as u128 with mantissa >= 0).
 //
 // Input layout (keep in sync with LAYOUTS in run_kani.py): a single `n: T`
-// (bool: 1 byte; f32/f64: raw IEEE bits, little endian).
+// (bool: 1 byte; f32/f64: raw IEEE bits, little endian), then `_marker: u8` (see cex_marker).
 
 use super::Value;
+
+/// Drawn after the last kani::cover! and immediately before the assertions of a harness. Concrete
+/// playback extracts the kani::any() values of the trace *up to* the property, and Kani drops a
+/// playback test that is identical to the one printed just before it; this extra byte makes the
+/// value list of every harness assertion differ from that of every cover, so the counterexample
+/// of a failed assertion is always printed. (Layout: trailing `_marker: u8` in run_kani.py.)
+fn cex_marker() {
+    let m: u8 = kani::any();
+    kani::assume(m == 0xA5);
+}
 
 macro_rules! k2_signed {
     ($name:ident, $t:ty) => {
         #[kani::proof]
         fn $name() {
             let n: $t = kani::any();
-            let v = Value::from(n);
             kani::cover!(n == <$t>::MAX, "k2_input_max");
             kani::cover!(n == <$t>::MIN, "k2_input_min");
+            let v = Value::from(n);
             match v {
                 Value::Number(d) => {
                     kani::cover!(true, "k2_reached_number");
+                    cex_marker();
                     assert!(d.scale() == 0, "k2: Value::from(integer) has scale 0");
                     assert!(
                         d.mantissa() == n as i128,
@@ -41,12 +52,13 @@ macro_rules! k2_unsigned {
         #[kani::proof]
         fn $name() {
             let n: $t = kani::any();
-            let v = Value::from(n);
             kani::cover!(n == <$t>::MAX, "k2_input_max");
             kani::cover!(n == 0, "k2_input_min");
+            let v = Value::from(n);
             match v {
                 Value::Number(d) => {
                     kani::cover!(true, "k2_reached_number");
+                    cex_marker();
                     assert!(d.scale() == 0, "k2: Value::from(integer) has scale 0");
                     assert!(
                         d.mantissa() >= 0 && d.mantissa() as u128 == n as u128,
@@ -76,6 +88,7 @@ fn k2_from_bool() {
     let v = Value::from(b);
     kani::cover!(b, "k2_input_true");
     kani::cover!(!b, "k2_input_false");
+    cex_marker();
     match v {
         Value::Bool(x) => assert!(x == b, "k2: Value::from(bool) round-trips"),
         _ => assert!(false, "k2: Value::from(bool) is a Value::Bool"),
@@ -103,9 +116,10 @@ macro_rules! k2_float_nonfinite {
             match v {
                 Value::Number(d) => {
                     kani::cover!(true, "k2_reached_number");
+                    cex_marker();
                     assert!(
                         !(d.mantissa() == 0),
-                        "k2: Value::from(NaN or infinity) is not the number 0"
+                        "k2: Value::from(non-finite float) is not the number 0"
                     );
                 }
                 _ => {}
